@@ -52,6 +52,7 @@ def pcName : UPc → String
 def step (x : S) (ws : List String) : Option (S × String × List String) :=
   match ws with
   | ["run", _, _, _] => ok {}
+  | ["panic", who, msg] => rej x s!"a call panicked: {who} {msg}"
   | ["forced", _, _] => ok {}
   | ["forced", a] => ok x (if a == "held=true" then ["forced_schedule_reached"] else ["forced_schedule_not_reached"])
   -- ---- Send
